@@ -244,6 +244,10 @@ def unit(run, scope_files=None):
                 n = opnode(f, args[1])
                 if CHAR_VEC_TY.search(atys[0]) and atys[1] == "usize":
                     seed(n, "Char", "index into a Vec<char> at " + where)
+                if CHAR_VEC_TY.search(atys[0]) and "ops::Range" in atys[1]:
+                    rl = op_local(args[1])
+                    if rl is not None:
+                        seed(("rng", f.id, f.copy_root(rl)), "Char", "Vec<char> indexed by a range at " + where)
                 if re.search(r"^&(mut )?(str|std::string::String)$", atys[0]):
                     rl = op_local(args[1])
                     if rl is not None:
